@@ -27,6 +27,10 @@ enum Variant {
     FreshnessCallback,
     /// the creator's second call (the first rebuild) fails; an acquirer that gets the error asks again
     CreatorFailsOnce,
+    /// the creator's second call panics; the acquirer catches the panic (the process lives on) and asks
+    /// again - whatever that second call does (it may well panic on a poisoned lock), it must not hand
+    /// out an environment from before the request
+    CreatorPanicsOnce,
 }
 
 #[derive(Clone, Copy, Debug)]
@@ -135,6 +139,9 @@ fn c20_body(cfg: Cfg, stats: StdArc<StdMutex<Stats>>) -> impl Fn() + Send + Sync
                     notifier.watch_path("tpl", true);
                 }
             }
+            if cfg.variant == Variant::CreatorPanicsOnce && calls == 2 {
+                panic!("the creator panics once");
+            }
             if cfg.variant == Variant::CreatorFailsOnce && calls == 2 {
                 return Err(minijinja::Error::new(minijinja::ErrorKind::InvalidOperation, "the creator fails once"));
             }
@@ -184,10 +191,19 @@ fn c20_body(cfg: Cfg, stats: StdArc<StdMutex<Stats>>) -> impl Fn() + Send + Sync
                 for _ in 0..cfg.acquires_each {
                     let r = returned.load(Ordering::SeqCst);
                     // (a rebuild that failed hands out nothing; the caller asks again)
-                    let guard = match reloader.acquire_env() {
-                        Ok(g) => g,
-                        Err(_) if cfg.variant == Variant::CreatorFailsOnce => reloader.acquire_env().expect("the creator fails only once"),
-                        Err(e) => panic!("creator does not fail: {}", e),
+                    let guard = if cfg.variant == Variant::CreatorPanicsOnce {
+                        let attempt = || std::panic::catch_unwind(std::panic::AssertUnwindSafe(|| reloader.acquire_env().ok())).ok().flatten();
+                        match attempt().or_else(attempt) {
+                            Some(g) => g,
+                            // nothing is handed out any more (the lock is poisoned): nothing stale either
+                            None => return,
+                        }
+                    } else {
+                        match reloader.acquire_env() {
+                            Ok(g) => g,
+                            Err(_) if cfg.variant == Variant::CreatorFailsOnce => reloader.acquire_env().expect("the creator fails only once"),
+                            Err(e) => panic!("creator does not fail: {}", e),
+                        }
                     };
                     let read = |g: &autoreload::EnvironmentGuard<'_>| -> usize {
                         if cfg.fast {
@@ -222,16 +238,23 @@ fn c20_body(cfg: Cfg, stats: StdArc<StdMutex<Stats>>) -> impl Fn() + Send + Sync
         // after everything returned: the next acquire sees the last request
         {
             let r = returned.load(Ordering::SeqCst);
-            let guard = match reloader.acquire_env() {
-                Ok(g) => g,
-                Err(_) if cfg.variant == Variant::CreatorFailsOnce => reloader.acquire_env().expect("the creator fails only once"),
-                Err(e) => panic!("creator does not fail: {}", e),
+            let final_guard = if cfg.variant == Variant::CreatorPanicsOnce {
+                let attempt = || std::panic::catch_unwind(std::panic::AssertUnwindSafe(|| reloader.acquire_env().ok())).ok().flatten();
+                attempt().or_else(attempt)
+            } else {
+                Some(match reloader.acquire_env() {
+                    Ok(g) => g,
+                    Err(_) if cfg.variant == Variant::CreatorFailsOnce => reloader.acquire_env().expect("the creator fails only once"),
+                    Err(e) => panic!("creator does not fail: {}", e),
+                })
             };
+            if let Some(guard) = final_guard {
             let s: usize = if cfg.fast { guard.get_template("t").unwrap().render(()).unwrap().parse().unwrap() } else { guard.render_str("{{ stamp }}", ()).unwrap().parse().unwrap() };
             assert!(s >= r, "LOST RELOAD at quiescence: last returned request #{} but final environment is from version {}", r, s);
+            }
         }
         let calls = creator_calls.load(Ordering::SeqCst);
-        let allowed = usize::from(cfg.variant == Variant::CreatorFailsOnce) + 1 + cfg.requesters + events_delivered.load(Ordering::SeqCst) + usize::from(cfg.prewarm && cfg.variant == Variant::RequestFromCreator) + requests_from_creator.load(Ordering::SeqCst) + callback_trues.load(Ordering::SeqCst);
+        let allowed = usize::from(cfg.variant == Variant::CreatorFailsOnce || cfg.variant == Variant::CreatorPanicsOnce) + 1 + cfg.requesters + events_delivered.load(Ordering::SeqCst) + usize::from(cfg.prewarm && cfg.variant == Variant::RequestFromCreator) + requests_from_creator.load(Ordering::SeqCst) + callback_trues.load(Ordering::SeqCst);
         assert!(calls <= allowed, "creator called {} times for {} requests (+{} from the creator, +{} freshness callbacks)", calls, cfg.requesters, requests_from_creator.load(Ordering::SeqCst), callback_trues.load(Ordering::SeqCst));
         if cfg.fast {
             assert!(calls == 1, "with fast reload the creator runs once, not {} times", calls);
@@ -328,6 +351,21 @@ fn c20(tier: &str, seed: u64, replay_file: Option<String>) -> i32 {
     let all = configs(tier);
     if let Some(p) = replay_file {
         let doc: J = serde_json::from_str(&std::fs::read_to_string(&p).expect("replay file")).expect("json");
+        if doc["replay"]["fault_history"].is_string() {
+            // the sequential fault histories are cheap: run them all and report the one asked for
+            let want = doc["replay"]["fault_history"].as_str().unwrap();
+            let (_, fails) = fault_histories(7);
+            return match fails.iter().find(|(h, _)| h == want) {
+                Some((h, why)) => {
+                    println!("VIOLATION property=C20 replay={}  # fault history [{}] :: LOST RELOAD: {}", p, h, why);
+                    1
+                }
+                None => {
+                    println!("replay: history passes");
+                    0
+                }
+            };
+        }
         let name = doc["replay"]["config"].as_str().unwrap_or("");
         let Some((cfg, _)) = configs("thorough").into_iter().find(|(c, _)| c.name() == name) else {
             eprintln!("machinery error: unknown configuration {:?}", name);
@@ -462,6 +500,18 @@ fn c20(tier: &str, seed: u64, replay_file: Option<String>) -> i32 {
     if machinery {
         return 2;
     }
+    // sequential fault histories (real crate, no scheduler)
+    let (n_hist, hist_failures) = fault_histories(if tier == "thorough" { 7 } else { 5 });
+    for (hi, (hist, why)) in hist_failures.iter().enumerate() {
+        violations += 1;
+        if hi < 8 {
+            let _ = std::fs::create_dir_all("/verif/replays/C20");
+            let path = format!("/verif/replays/C20/fault_history_{}.json", hi);
+            let doc = json!({"property": "C20", "key": "reload lost_request fault_history", "case": hist, "detail": why, "replay": {"fault_history": hist}});
+            std::fs::write(&path, serde_json::to_string_pretty(&doc).unwrap()).unwrap();
+            println!("VIOLATION property=C20 replay={}  # fault history [{}] :: LOST RELOAD: {}", path, hist, why);
+        }
+    }
     for n in &not_started {
         capped.push(format!("{} not started (overall deadline)", n));
     }
@@ -476,6 +526,8 @@ fn c20(tier: &str, seed: u64, replay_file: Option<String>) -> i32 {
         "max_schedule_length": max_depth,
         "distinct_observed_outcomes": outcomes_all.len(),
         "configurations": per_cfg,
+        "fault_histories": n_hist,
+        "fault_histories_rule": "every sequence of up to 5 (thorough 7) operations out of {request, acquire, acquire while the creator returns an error, acquire while the creator panics and the caller catches it} on the real crate, with full rebuilds and with fast reload; an environment handed out after request k returned must be of version >= k",
         "exhaustive": capped.is_empty(),
         "wall_cap_hit": capped,
         "rule": "stateless DFS over all schedules of the real (source-swapped) auto-reloader with at most k preemptions, k iterated 0..=bound per configuration; scheduling points are all shuttle Mutex operations, spawn, join and yield; every execution runs to completion. states = complete schedules explored; the implementation itself is executed under every schedule (there is no separate model), so every schedule is a trace validated against the implementation. distinct non-trivial = distinct (configuration, creator-call count, multiset of (requests returned before acquire, version seen)) outcomes",
@@ -492,7 +544,7 @@ fn c20(tier: &str, seed: u64, replay_file: Option<String>) -> i32 {
         vec![
             "shuttle models every atomic as sequentially consistent and runs tasks one at a time; Arc/Weak reference counts are not scheduling points",
             "the notify crate is replaced by a stub whose event delivery is a harness thread: the handler closure is the real source's, the inotify machinery is not; an event is delivered to watchers alive when the delivery starts",
-            "a failing creator is outside the property's quantifier and is not driven",
+            "creators that fail are driven in 10 scheduled configurations (error) and in the sequential fault histories (error and caught panic); a panic inside a scheduled task is not explored under the scheduler (it leaves shuttle's per-process state unusable for later executions)",
         ],
         start.elapsed().as_secs_f64(),
         violations,
@@ -503,6 +555,79 @@ fn c20(tier: &str, seed: u64, replay_file: Option<String>) -> i32 {
     } else {
         0
     }
+}
+
+// ---------------------------------------------------------------------------------------------
+// sequential fault histories on the real (unswapped) crate: every sequence of up to `depth` operations
+// out of {request, acquire, acquire while the creator fails, acquire while the creator panics (caught by
+// the caller)}.  No interleaving is involved, so plain OS code runs them; the oracle is the one of the
+// schedules: an environment handed out after request k has returned carries a version >= k, and an
+// acquire that hands out nothing is no violation.
+fn fault_histories(depth: usize) -> (u64, Vec<(String, String)>) {
+    use minijinja_autoreload::AutoReloader;
+    let ops = ["request", "acquire", "acquire_creator_fails", "acquire_creator_panics"];
+    let mut failures = vec![];
+    let mut n_hist = 0u64;
+    let hook = std::panic::take_hook();
+    std::panic::set_hook(Box::new(|_| {}));
+    for fast in [false, true] {
+        for d in 1..=depth {
+            for code in 0..ops.len().pow(d as u32) {
+                let mut hist = vec![];
+                let mut k = code;
+                for _ in 0..d {
+                    hist.push(ops[k % ops.len()]);
+                    k /= ops.len();
+                }
+                n_hist += 1;
+                let version = StdArc::new(AtomicUsize::new(0));
+                let mode = StdArc::new(AtomicUsize::new(0)); // 0 ok, 1 creator fails, 2 creator panics
+                let (v2, m2) = (version.clone(), mode.clone());
+                let reloader = AutoReloader::new(move |notifier| {
+                    match m2.load(Ordering::SeqCst) {
+                        1 => return Err(minijinja::Error::new(minijinja::ErrorKind::InvalidOperation, "creator fails")),
+                        2 => panic!("creator panics"),
+                        _ => {}
+                    }
+                    if fast {
+                        notifier.set_fast_reload(true);
+                    }
+                    let mut env = minijinja::Environment::new();
+                    let v3 = v2.clone();
+                    env.set_loader(move |_| Ok(Some(format!("{}", v3.load(Ordering::SeqCst)))));
+                    Ok(env)
+                });
+                let mut returned = 0usize;
+                let mut problem = None;
+                for (i, op) in hist.iter().enumerate() {
+                    match *op {
+                        "request" => {
+                            returned = version.fetch_add(1, Ordering::SeqCst) + 1;
+                            reloader.notifier().request_reload();
+                        }
+                        acq => {
+                            mode.store(match acq { "acquire_creator_fails" => 1, "acquire_creator_panics" => 2, _ => 0 }, Ordering::SeqCst);
+                            let got = std::panic::catch_unwind(std::panic::AssertUnwindSafe(|| {
+                                reloader.acquire_env().ok().map(|g| g.get_template("t").unwrap().render(()).unwrap().parse::<usize>().unwrap())
+                            }));
+                            mode.store(0, Ordering::SeqCst);
+                            if let Ok(Some(stamp)) = got {
+                                if stamp < returned {
+                                    problem = Some(format!("step {} ({}): request #{} had returned but the environment handed out is from version {}", i + 1, acq, returned, stamp));
+                                    break;
+                                }
+                            }
+                        }
+                    }
+                }
+                if let Some(p) = problem {
+                    failures.push((format!("{} {}", if fast { "fast" } else { "rebuild" }, hist.join(" ; ")), p));
+                }
+            }
+        }
+    }
+    std::panic::set_hook(hook);
+    (n_hist, failures)
 }
 
 fn main() {
